@@ -41,12 +41,13 @@ def _lazy_io_path(repo):
 def _query(args):
   path, P, LMAX, H, K, name, tmo = args[:7]
   faults = args[7] if len(args) > 7 else False
+  closers = args[8] if len(args) > 8 else 1
   sys.path.insert(0, VERIF)
   from pyts.model import Model, Unsupported
   try:
-    m = Model(path, P=P, LMAX=LMAX, H=H, faults=faults)
+    m = Model(path, P=P, LMAX=LMAX, H=H, faults=faults, closers=closers)
     r = m.bmc(K, name, timeout_s=tmo)
-    r.update({"P": P, "H": H, "LMAX": LMAX, "model_lines": m.model_lines()})
+    r.update({"P": P, "H": H, "LMAX": LMAX, "closers": closers, "model_lines": m.model_lines()})
     return r
   except Unsupported as e:
     return {"query": name, "result": "unsupported", "why": str(e), "P": P, "H": H, "LMAX": LMAX, "K": K}
@@ -55,10 +56,11 @@ def _query(args):
 def _samples(args):
   path, P, LMAX, H, K, specs, seed = args[:7]
   faults = args[7] if len(args) > 7 else False
+  closers = args[8] if len(args) > 8 else 1
   sys.path.insert(0, VERIF)
   import z3
   from pyts.model import Model, NOFAULT
-  m = Model(path, P=P, LMAX=LMAX, H=H, faults=faults)
+  m = Model(path, P=P, LMAX=LMAX, H=H, faults=faults, closers=closers)
   out = []
   for (w, choices, Ls, pin) in specs:
     def extra(mm, st, sc, w=w, choices=choices, Ls=Ls, pin=pin):
@@ -73,7 +75,7 @@ def _samples(args):
       return z3.And(*cs)
     r = m.sample_run(K, timeout_s=120, extra=[extra])
     if r["result"] == "sat":
-      r["P"] = P; r["model_lines"] = m.model_lines()
+      r["P"] = P; r["model_lines"] = m.model_lines(); r["closers"] = closers
       out.append(r)
   return out
 
@@ -109,6 +111,14 @@ def _real_trace_ok(res, run):
   if len(opens) != len(closes): bad.append("%d device streams were opened but %d closed" % (len(opens), len(closes)))
   if terms and any(i > terms[0] for i in opens): bad.append("a device stream was opened after the backend was terminated")
   if any(res.get("players_alive", [])): bad.append("a player thread is still alive")
+  if run.get("closers") == 2:
+    c2 = res.get("c2_post")
+    if res.get("c2_exc"): bad.append("the second close() raised %s" % res["c2_exc"])
+    elif c2 is None: bad.append("the second close() did not return")
+    else:
+      if c2["terminated"] != 1: bad.append("when the second close() returned the backend had been terminated %d times" % c2["terminated"])
+      if c2["streams_open"] or c2["closes"] != c2["opens"]: bad.append("when the second close() returned a device stream was still open")
+      if any(c2["players_alive"]): bad.append("when the second close() returned a player thread was still alive")
   if not run["wait"]:
     calls = res.get("calls", [])
     for i, c in enumerate(calls):
@@ -183,7 +193,9 @@ def main(a, seed):
   rc = 0
   # faults=True: the backend may fail at one solver-chosen write per player (the exception ends the player unless the code
   # handles it); the fault-free behaviours are the instances fault<p> = NOFAULT of the same queries
-  cfgs = [dict(P=1, H=1, LMAX=2, Ks=(30, 36, 44), tmo=300, claim=True, faults=True)]
+  cfgs = [dict(P=1, H=1, LMAX=2, Ks=(30, 36, 44), tmo=300, claim=True, faults=True),
+          # a second thread closes the manager concurrently (terminate(), a with-block left in another thread, __del__)
+          dict(P=1, H=0, LMAX=1, Ks=(30, 36, 44), tmo=300, claim=True, closers=2, queries=QUERIES + ["final2"])]
   if tier == "thorough":
     cfgs.append(dict(P=1, H=2, LMAX=2, Ks=(40, 48, 56), tmo=900, claim=True, faults=True))
     cfgs.append(dict(P=1, H=3, LMAX=1, Ks=(44, 52, 60), tmo=1200, claim=False))
@@ -205,11 +217,11 @@ def main(a, seed):
     def do_cfg(cfg):
       nonlocal validated
       P, H, LMAX = cfg["P"], cfg["H"], cfg["LMAX"]
-      FL = bool(cfg.get("faults"))
+      FL = bool(cfg.get("faults")); CL = cfg.get("closers", 1)
       try:
         with z3_lock:          # the z3 API is not thread-safe: this process only builds the model to report its size
-          m = Model(path, P=P, LMAX=LMAX, H=H, faults=FL)
-          nodes_info["P%dH%d" % (P, H)] = {"cfg_nodes": m.nodes_before_reduction, "after_reduction": m.nodes_total()}
+          m = Model(path, P=P, LMAX=LMAX, H=H, faults=FL, closers=CL)
+          nodes_info["P%dH%d%s" % (P, H, "C2" if CL == 2 else "")] = {"cfg_nodes": m.nodes_before_reduction, "after_reduction": m.nodes_total()}
           del m
       except Unsupported as e:
         inconcl.append({"clause": "translator", "why": "translator does not support the current source: %s" % e})
@@ -218,7 +230,7 @@ def main(a, seed):
       K = None
       if not cfg.get("hunt"):
         for k in cfg["Ks"]:
-          r = pool.apply(_query, ((path, P, LMAX, H, k, "longer", cfg["tmo"], FL),))
+          r = pool.apply(_query, ((path, P, LMAX, H, k, "longer", cfg["tmo"], FL, CL),))
           all_results.append(r)
           if r["result"] == "unsat":
             K = k; break
@@ -245,7 +257,7 @@ def main(a, seed):
       else:
         K = cfg["Ks"][0]
       # 2. the property queries, in parallel
-      jobs = [(path, P, LMAX, H, K, q, cfg["tmo"], FL) for q in cfg.get("queries", QUERIES)]
+      jobs = [(path, P, LMAX, H, K, q, cfg["tmo"], FL, CL) for q in cfg.get("queries", QUERIES)]
       for r in pool.imap_unordered(_query, jobs):
         all_results.append(r)
         if r["result"] == "unsat": continue
@@ -285,7 +297,7 @@ def main(a, seed):
         specs = specs[: (28 if tier == "quick" else 60)]
         chunks_ = [specs[i::4] for i in range(4)]
         runs = []
-        for part in pool.imap_unordered(_samples, [(path, P, LMAX, H, K, c, seed, FL) for c in chunks_]):
+        for part in pool.imap_unordered(_samples, [(path, P, LMAX, H, K, c, seed, FL, CL) for c in chunks_]):
           runs.extend(part)
         reps = _replay(repo, runs)
         for run, rep in zip(runs, reps):
